@@ -474,7 +474,12 @@ class SymSeq(Model):
     if ip.ctx.branch(self.length() == 0, 'popleft-empty'):
       raise PyRaise(ExcVal('IndexError', ('pop from an empty deque',)))
     v = self.at(ip, 0)
-    self.set_term(ip, z3.SubSeq(self.term, 1, self.length() - 1))
+    old = self.term
+    new = z3.SubSeq(old, 1, z3.Length(old) - 1)
+    i = z3.Int('i?')
+    ip.ctx.assume(z3.Length(new) == z3.Length(old) - 1)
+    ip.ctx.assume(z3.ForAll([i], z3.Implies(z3.And(0 <= i, i < z3.Length(old) - 1), new[i] == old[i + 1])))
+    self.set_term(ip, new)
     return v
 
   def py_pop(self, ip, i=None):
@@ -482,7 +487,12 @@ class SymSeq(Model):
       raise PyRaise(ExcVal('IndexError', ('pop from empty list',)))
     if i is None:
       v = self.at(ip, self.length() - 1)
-      self.set_term(ip, z3.SubSeq(self.term, 0, self.length() - 1))
+      old = self.term
+      new = z3.SubSeq(old, 0, z3.Length(old) - 1)
+      j = z3.Int('i?')
+      ip.ctx.assume(z3.Length(new) == z3.Length(old) - 1)
+      ip.ctx.assume(z3.ForAll([j], z3.Implies(z3.And(0 <= j, j < z3.Length(old) - 1), new[j] == old[j])))
+      self.set_term(ip, new)
       return v
     i = self._norm_index(ip, i)
     v = self.at(ip, i)
@@ -492,6 +502,19 @@ class SymSeq(Model):
 
   def py_clear(self, ip):
     self.set_term(ip, z3.Empty(z3.SeqSort(self.ty.sort)))
+
+  def py_minmax(self, ip, is_min, key):
+    if key is not None:
+      raise EngineError("min/max with key over a symbolic sequence")
+    n = self.length()
+    if ip.ctx.branch(n == 0, 'min/max of empty'):
+      raise PyRaise(ExcVal('ValueError', ('min()/max() arg is an empty sequence',)))
+    w = ip.ctx.fresh(z3.IntSort(), 'argext')
+    i = z3.Int('i?')
+    ip.ctx.assume(z3.And(0 <= w, w < n))
+    v = self.term[w]
+    ip.ctx.assume(z3.ForAll([i], z3.Implies(z3.And(0 <= i, i < n), (v <= self.term[i]) if is_min else (v >= self.term[i]))))
+    return self.ty.dec(v)
 
   def py_slice(self, ip, lo, hi):
     n = self.length()
